@@ -25,6 +25,9 @@ pub struct Case {
     pub force_scalar: bool,
     /// re-evaluate the hashed-N constructor on a second OS thread
     pub second_thread: bool,
+    /// the input is handed over as a sub-slice starting this many bytes into a larger buffer
+    #[serde(default)]
+    pub slice_offset: usize,
 }
 
 /// Independent scalar table.
@@ -141,6 +144,7 @@ impl Harness for C16 {
             name,
             force_scalar: rng.chance(1, 2),
             second_thread: rng.chance(1, 64),
+            slice_offset: if rng.chance(1, 2) { 0 } else { rng.range(1, 63) },
         }
     }
 
@@ -173,7 +177,12 @@ impl Harness for C16 {
         }
 
         // lenient constructor under the coin
-        let a = with_path(c.force_scalar, || DnaString::from_acgt_bytes(&c.bytes));
+        // same bytes, possibly at an odd address inside a larger buffer (unaligned vector loads)
+        let mut backing = vec![b'T'; c.slice_offset];
+        backing.extend_from_slice(&c.bytes);
+        backing.extend_from_slice(b"GGGG");
+        let view = &backing[c.slice_offset..c.slice_offset + n];
+        let a = with_path(c.force_scalar, || DnaString::from_acgt_bytes(view));
         rec.ev("from_acgt_bytes", n as u64, hash_of(&a));
         if a.len() != n {
             return Err(viol("length", "from_acgt_bytes", format!("len {} for {} input bytes", a.len(), n)));
@@ -341,6 +350,11 @@ impl Harness for C16 {
         if c.second_thread {
             let mut x = c.clone();
             x.second_thread = false;
+            out.push(x);
+        }
+        if c.slice_offset != 0 {
+            let mut x = c.clone();
+            x.slice_offset = 0;
             out.push(x);
         }
         out
